@@ -57,6 +57,13 @@ func newStringExtractor(position stringExtractorPosition, patternParts []string,
 		return emptyExtractor, fmt.Errorf("patternParts[1] must not be empty")
 	case targetWildcard == "*":
 		validCharTable = nil
+		// the extent of '*' is only defined by the boundary on the far side
+		if position == extractFromStart && len(rightBoundary) == 0 {
+			return emptyExtractor, fmt.Errorf("'*' must be followed by right boundary")
+		}
+		if position == extractFromEnd && len(leftBoundary) == 0 {
+			return emptyExtractor, fmt.Errorf("'*' must follow left boundary")
+		}
 	case len(targetWildcard) < 2 || targetWildcard[0] != '[' || targetWildcard[len(targetWildcard)-1] != ']':
 		return emptyExtractor, fmt.Errorf("patternParts[1] must be '*' or '[...]'")
 	default:
